@@ -118,6 +118,36 @@ func TestC17(t *testing.T) {
 			}
 			c.Ev.MarkExhaustive(fmt.Sprintf("every built-in (17) x 0..2 arguments over every combination of %d argument producers, plus a covering sample of 3 and 4 arguments", len(c17Args)))
 		})
+		// a built-in is the same function under any name: held in a variable, passed as a parameter, stored in a
+		// property or an element, returned from a function — used well and misused
+		c.Sub("builtins-under-other-names", func(s *Sub) {
+			var k int64
+			forms := []string{
+				bn.KwVar + " alias = %[1]s;\n" + P + " alias(%[2]s);\n",
+				bn.KwFun + " ap(g) { " + bn.KwReturn + " g(%[2]s); }\n" + P + " ap(%[1]s);\n",
+				P + " ({m: %[1]s}).m(%[2]s);\n",
+				P + " [%[1]s][0](%[2]s);\n",
+				bn.KwFun + " pick() { " + bn.KwReturn + " %[1]s; }\n" + P + " pick()(%[2]s);\n",
+				bn.KwVar + " alias = nil;\nalias = %[1]s;\n" + bn.KwFun + " twice(g) { " + P + " g(%[2]s); " + P + " g(%[2]s); }\ntwice(alias);\n",
+			}
+			for _, b := range bn.Builtins {
+				if b == bn.BClock || b == bn.BInput {
+					continue
+				}
+				for _, a := range c17Args {
+					for _, args := range []string{a.text, a.text + ", " + a.text, "", "[" + a.text + "]"} {
+						for fi, f := range forms {
+							k++
+							if !c.Mine(k) || (!c.Thorough && (int(k)+fi)%3 != 0) {
+								continue
+							}
+							src := c17Prelude + P + " \"before\";\n" + fmt.Sprintf(f, b, args) + P + " \"after\";\n"
+							c.c17Program(s, "builtins-under-other-names", src, true, true, "builtin "+b, "aliased")
+						}
+					}
+				}
+			}
+		})
 		c.Sub("min-max-permutations", func(s *Sub) {
 			if c.Shard != 0 {
 				return
